@@ -71,7 +71,8 @@ func VerifC13Snapshot() {
 	for _, h := range a.OpLog().Heads().Slice() {
 		wantHeads = append(wantHeads, h.GetHash().String())
 	}
-	if sizes > 0 {
+	if sizes > 0 && shape != 0 {
+		// (an empty log's header has a fixed small size; documents embedding entries can be arbitrarily large)
 		vstub.SymbolicBlobSizes(sizes)
 	}
 	_, err := SaveSnapshot(ctx, a)
